@@ -9,6 +9,7 @@ import GtModel.Proofs.ZeroPerm
 import GtModel.Proofs.PermCost
 import GtModel.Proofs.PermPairs
 import GtModel.Props.C02
+import GtModel.Proofs.EditsOptions
 
 namespace GtModel.C08
 open GtModel
@@ -111,6 +112,123 @@ example :
     Doc.PermEq (.obj as) (.obj as') ∧ (Doc.obj as).distinctKeys = true :=
   ⟨.obj (cs := [([97], .scalar (.int 1)), ([98], .scalar (.int 2))])
     (.cons (.scalar _) (.cons (.scalar _) .nil)) (List.Perm.swap _ _ _), by decide⟩
+
+/-! ### (3) pairing by key at EVERY nesting level
+
+  `fdict_perm_pairing` above is stated for the ROOT edit of two object documents.  The two statements below remove that
+  restriction: `fdict_perm_pairing_any_node` is the same permutation-invariance for ANY two FixedKeyDictNodes (at any
+  index paths `fp`/`tp`, i.e. anywhere inside a comparison), and `fdict_pairing_every_level` walks the whole script
+  (`Walk`, as C10's `none_no_cross_key` does): EVERY FixedKeyDictNodeEdit in it, at every depth, has — read as
+  (from-key, to-key, kind, cost) tuples — exactly the pairing that key look-up determines (`fromTuple` / `toTuple`:
+  a from-pair whose key occurs in the to-mapping is matched with THAT pair, otherwise removed; a to-pair whose key
+  does not occur in the from-mapping is inserted), which does not depend on the order of the pairs of either mapping
+  (`pairing_spec_order_independent`). -/
+
+/-- the same for ANY two FixedKeyDictNodes, wherever they sit (any index paths, any oracles) -/
+theorem fdict_perm_pairing_any_node (o : Opts) (orc orc' : Oracle) (fp tp fp' tp' : List Nat)
+    {fkv fkv' tkv tkv' : List (Str × Tree)}
+    (hf : TPerm (.fdict fkv) (.fdict fkv')) (ht : TPerm (.fdict tkv) (.fdict tkv'))
+    (wf : (Tree.fdict fkv).WF = true) (wf' : (Tree.fdict fkv').WF = true)
+    (wt : (Tree.fdict tkv).WF = true) (wt' : (Tree.fdict tkv').WF = true) :
+    ((edits o orc fp tp (.fdict fkv) (.fdict tkv)).subs.map (subTuple fkv tkv)).Perm
+      ((edits o orc' fp' tp' (.fdict fkv') (.fdict tkv')).subs.map (subTuple fkv' tkv')) :=
+  fdict_subs_perm o orc orc' fp tp fp' tp' hf ht wf wf' wt wt'
+
+/-- what a FixedKeyDictNodeEdit must look like: its sub-edits are the key-determined pairing -/
+def LocalFKPairing (o : Opts) (a b : Nd) (k : Kind) (subs : List Script) : Prop :=
+  ∀ fkv tkv, a = .tree (.fdict fkv) → b = .tree (.fdict tkv) → k = .fk →
+    (subs.map (subTuple fkv tkv)).Perm (fkv.map (fromTuple (cost0 o) tkv) ++ tkv.filterMap (toTuple fkv))
+
+/-- distinct keys, and no DictNode below (what `build` makes with `allow_key_edits = False`) -/
+def FkDomain (t : Tree) : Prop := t.WF = true ∧ TPerm t t
+
+theorem treeInv_fkDomain : TreeInv FkDomain := by
+  refine ⟨fun s => ⟨rfl, .leaf s⟩, ?_, ?_, ?_⟩
+  · intro cs h c hc
+    have hw : ∀ c ∈ cs, c.WF = true := (wfL_iff cs).1 (by simpa [Tree.WF] using h.1)
+    have hp := (TPermL_iff _ _).1 ((TPerm_list_iff _ _).1 h.2)
+    obtain ⟨i, hi, rfl⟩ := List.getElem_of_mem hc
+    exact ⟨hw _ hc, hp.2 i hi hi⟩
+  · intro kvs h; cases h.2
+  · intro kvs h kv hkv
+    have hw : ∀ p ∈ kvs, p.2.WF = true := by
+      have := h.1
+      simp only [Tree.WF, Bool.and_eq_true, decide_eq_true_eq, wfKV_iff] at this
+      exact this.2
+    obtain ⟨q, _, hq⟩ := ((TPerm_fdict_iff _ _).1 h.2).left kv hkv
+    exact ⟨hw _ hkv, hq.2.refl_left⟩
+
+theorem localFKPairing_edits (o : Opts) (orc : Oracle) (fp tp : List Nat) (f t : Tree) (hf : FkDomain f) (ht : FkDomain t) :
+    LocalFKPairing o (.tree f) (.tree t) (edits o orc fp tp f t).kind (edits o orc fp tp f t).subs := by
+  intro fkv tkv ha hb hk
+  simp only [Nd.tree.injEq] at ha hb
+  subst ha hb
+  rw [edits_fdict_fdict] at hk ⊢
+  split at hk
+  · simp at hk
+  · rename_i h
+    simp only [h, Bool.false_eq_true, if_false]
+    apply fkScript_subs_perm (cost0 o) fkv tkv
+    intro i j hi hj
+    rw [kvTbl_getD _ _ _ _ _ _ _ _ _ hi hj, getD_eq_getElem' _ _ hi, getD_eq_getElem' _ _ hj]
+    have h1 := treeInv_fkDomain.fdict _ hf _ (List.getElem_mem hi)
+    have h2 := treeInv_fkDomain.fdict _ ht _ (List.getElem_mem hj)
+    exact cost_perm o _ _ _ _ _ _ h1.2 h2.2 h1.1 h1.1 h2.1 h2.1
+
+/-- (3) at EVERY nesting level: every FixedKeyDictNodeEdit of the script pairs by key — for all options, every
+    oracle, all trees with distinct keys and no DictNode (every tree `build` makes without key edits) -/
+theorem fdict_pairing_every_level (o : Opts) (orc : Oracle) (fp tp : List Nat) (f t : Tree)
+    (hf : FkDomain f) (ht : FkDomain t) :
+    Walk (LocalFKPairing o) (.tree f) (.tree t) (edits o orc fp tp f t) :=
+  walk_edits o orc treeInv_fkDomain (fun fp tp f t hf ht => localFKPairing_edits o orc fp tp f t hf ht)
+    (fun _ _ _ _ _ _ _ _ => by intro fkv tkv ha; cases ha) f fp tp t hf ht
+
+mutual
+theorem tperm_refl_of_noDict : ∀ t : Tree, t.noDict = true → TPerm t t
+  | .leaf s, _ => .leaf s
+  | .list cs, h => .list (tpermL_refl_of_noDict cs (by simpa [Tree.noDict] using h))
+  | .dict _, h => by simp [Tree.noDict] at h
+  | .fdict kvs, h => .fdict (tpermKV_refl_of_noDict kvs (by simpa [Tree.noDict] using h)) (List.Perm.refl _)
+theorem tpermL_refl_of_noDict : ∀ cs : List Tree, noDictL cs = true → TPermL cs cs
+  | [], _ => .nil
+  | c :: cs, h => by
+    simp only [noDictL, Bool.and_eq_true] at h
+    exact .cons (tperm_refl_of_noDict c h.1) (tpermL_refl_of_noDict cs h.2)
+theorem tpermKV_refl_of_noDict : ∀ kvs : List (Str × Tree), noDictKV kvs = true → TPermKV kvs kvs
+  | [], _ => .nil
+  | (k, v) :: kvs, h => by
+    simp only [noDictKV, Bool.and_eq_true] at h
+    exact .cons (tperm_refl_of_noDict v h.1) (tpermKV_refl_of_noDict kvs h.2)
+end
+
+/-- (3) at every nesting level, for whole DOCUMENTS compared with `allow_key_edits = False` -/
+theorem fdict_pairing_every_level_docs (o : Opts) (hake : o.ake = false) (orc : Oracle) (a b : Doc)
+    (hda : a.distinctKeys = true) (hdb : b.distinctKeys = true) :
+    Walk (LocalFKPairing o) (.tree (build o a)) (.tree (build o b)) (diffDocs o orc a b) :=
+  fdict_pairing_every_level o orc [] [] _ _
+    ⟨build_WF o a hda, tperm_refl_of_noDict _ (build_noDict o hake a)⟩
+    ⟨build_WF o b hdb, tperm_refl_of_noDict _ (build_noDict o hake b)⟩
+
+/-- the key-determined pairing does not depend on the ORDER of the pairs of either mapping (nor on the order of any
+    mapping below): re-ordered mappings have the same multiset of (from-key, to-key, kind, cost) tuples -/
+theorem pairing_spec_order_independent (o : Opts) {fkv fkv' tkv tkv' : List (Str × Tree)}
+    (hf : TPerm (.fdict fkv) (.fdict fkv')) (ht : TPerm (.fdict tkv) (.fdict tkv'))
+    (wf : (Tree.fdict fkv).WF = true) (wf' : (Tree.fdict fkv').WF = true)
+    (wt : (Tree.fdict tkv).WF = true) (wt' : (Tree.fdict tkv').WF = true) :
+    (fkv.map (fromTuple (cost0 o) tkv) ++ tkv.filterMap (toTuple fkv)).Perm
+      (fkv'.map (fromTuple (cost0 o) tkv') ++ tkv'.filterMap (toTuple fkv')) := by
+  have kf := (TPerm_fdict_iff _ _).1 hf
+  have kt := (TPerm_fdict_iff _ _).1 ht
+  simp only [Tree.WF, Bool.and_eq_true, decide_eq_true_eq, wfKV_iff] at wf wf' wt wt'
+  apply fk_tuples_congr (cost0 o) kf kt wf.1 wt.1
+  intro p hp q hq p' hp' q' hq' hpp hqq
+  exact cost_perm o _ _ _ _ _ _ hpp.2 hqq.2 (wf.2 _ hp) (wf'.2 _ hp') (wt.2 _ hq) (wt'.2 _ hq')
+
+/-- non-vacuity: a nested document pair (object in list in object) in the domain, without key edits -/
+example :
+    let a : Doc := .obj [([97], .scalar (.int 1)), ([98], .list [.obj [([120], .scalar .null), ([121], .scalar (.bool true))]])]
+    ({ ake := false } : Opts).ake = false ∧ a.distinctKeys = true ∧ FkDomain (build { ake := false } a) := by
+  refine ⟨rfl, by decide, build_WF _ _ (by decide), tperm_refl_of_noDict _ (build_noDict _ rfl _)⟩
 
 /-! ### lists are ordered -/
 
